@@ -28,6 +28,7 @@ NWORKERS = 3
 HARD_TIMEOUT = 300
 WORKER_ENV = {"VERIF_CASE_SOFT_TIMEOUT": "240"}
 TAGGED = True
+BASILISP = False      # Delay/Promise/Future and runtime.deref are plain Python: no core bootstrap
 EXHAUSTIVE = {"quick": True, "thorough": False}
 FINDINGS = {}
 RULE = ("delay: 2-3 threads x 1-2 of {deref, realized?} on one delay whose body returns, or throws on its "
@@ -117,7 +118,8 @@ _STATS = {}
 def cases(tier, rng):
     from harness.vlib import pool
     cfgs = configs(tier)
-    outs = pool.run_cases(IMPL, cfgs, nworkers=NWORKERS, hard_timeout=HARD_TIMEOUT, env_extra=WORKER_ENV)
+    outs = pool.run_cases(IMPL, cfgs, nworkers=NWORKERS, hard_timeout=HARD_TIMEOUT, env_extra=WORKER_ENV,
+                          basilisp=BASILISP)
     explored, res = 0, []
     for c, o in zip(cfgs, outs):
         base = {k: v for k, v in c.items() if k != "explore"}
